@@ -388,3 +388,426 @@ Section PartA.
           -- unfold size0 in *. simpl in Hf. pose proof (size_pos t0). lia.
   Qed.
 End PartA.
+
+(* ================================================================ Part B: the loop *)
+Inductive All3 {A B C : Type} (R : A -> B -> C -> Prop) : list A -> list B -> list C -> Prop :=
+| All3_nil : All3 R [] [] []
+| All3_cons a b c la lb lc : R a b c -> All3 R la lb lc -> All3 R (a :: la) (b :: lb) (c :: lc).
+
+Lemma fold_min_spec : forall (l : list nat) b,
+  (fold_right Nat.min b l <= b /\ forall x, In x l -> fold_right Nat.min b l <= x) /\
+  (fold_right Nat.min b l = b \/ In (fold_right Nat.min b l) l).
+Proof.
+  induction l as [|x l IH]; intros b; simpl.
+  - split; [split; [lia|intros x []]|left; reflexivity].
+  - destruct (IH b) as [[A B] C]. split; [split|].
+    + lia.
+    + intros y [<-|Hy]; [lia|]. specialize (B y Hy). lia.
+    + destruct (Nat.min_spec x (fold_right Nat.min b l)) as [[_ E]|[_ E]]; rewrite E.
+      * right; left; reflexivity.
+      * destruct C as [C|C]; [left; exact C|right; right; exact C].
+Qed.
+
+Lemma map_add_S (l : list nat) i : map S (map (fun o => o + i) l) = map (fun o => o + S i) l.
+Proof. rewrite map_map. apply map_ext. intros; lia. Qed.
+Lemma map_add_0 (l : list nat) : map (fun o => o + 0) l = l.
+Proof. rewrite <- (map_id l) at 2. apply map_ext. intros; lia. Qed.
+
+Lemma col_nil i : col [] [] i = Some [].
+Proof. reflexivity. Qed.
+Lemma col_cons a arrs o offs i :
+  col (a :: arrs) (o :: offs) i =
+  match nth_error a (o + i), col arrs offs i with
+  | Some x, Some xs => Some (x :: xs)
+  | _, _ => None
+  end.
+Proof. reflexivity. Qed.
+Lemma crk_scan_S arrs offs i n :
+  crk_scan arrs offs i (S n) =
+  match col arrs offs i with
+  | None => None
+  | Some c =>
+    if all_eqb c then
+      match crk_scan arrs offs (S i) n with
+      | Some (cs, last, b) => Some (map (fun o => o + i) offs :: cs, last, b)
+      | None => None
+      end
+    else Some ([map (fun o => o + i) offs], i, true)
+  end.
+Proof. reflexivity. Qed.
+
+Section PartB.
+  Context {sym : Type}.
+  Variable arity : sym -> nat.
+  Notation tree := (tree sym).
+  Notation nargs := (nargs arity).
+  Notation wft := (wft arity).
+  Notation wff := (wff arity).
+  Notation specF := (specF arity).
+  Notation root_arities := (root_arities arity).
+
+  Definition aligned (m : nat) (Fs : list (list tree)) : Prop := Forall (fun F => length F = m) Fs.
+
+  (* parent state: the array is  pre ++ (encoding of the pending forest F),  and position o + i
+     is the start of that encoding *)
+  Definition st (i : nat) (a : list nat) (o : nat) (F : list tree) : Prop :=
+    wff F = true /\ exists pre, a = pre ++ nargs (flats F) /\ o + i = length pre.
+
+  Lemma find_end_raw (t : tree) (pre rest : list nat) : wft t = true ->
+    find_end (pre ++ nargs (flatten t) ++ rest) (length pre) = Some (length pre + size t).
+  Proof.
+    intros W. rewrite find_end_walk, skipn_app_len, (walk_wf arity t W 0 rest), walk_0.
+    simpl. f_equal. lia.
+  Qed.
+
+  Lemma heads_some m : forall Fs : list (list tree), aligned m Fs -> 1 <= m -> exists hs, heads Fs = Some hs.
+  Proof.
+    induction Fs as [|F Fs IH]; intros A Hm; [exists []; reflexivity|].
+    inversion A as [|? ? LF A']; subst. destruct (IH A' Hm) as [hs E]. destruct F as [|t r]; [simpl in Hm; lia|].
+    exists (t :: hs). simpl. rewrite E. reflexivity.
+  Qed.
+
+  Lemma expand_sizes (F : list tree) : F <> [] -> S (sizes (expand F)) = sizes F.
+  Proof.
+    destruct F as [|t r]; [congruence|]. intros _. simpl expand. rewrite sizes_app, sizes_cons.
+    pose proof (sizes_children t). lia.
+  Qed.
+
+  (* ---- one column *)
+  Lemma col_heads i : forall arrs offs (Fs : list (list tree)) hs,
+    All3 (st i) arrs offs Fs -> heads Fs = Some hs -> col arrs offs i = Some (root_arities hs).
+  Proof.
+    intros arrs offs Fs hs H. revert hs. induction H as [|a o F arrs offs Fs Hst H IH]; intros hs E.
+    - simpl in E. inversion E; subst. reflexivity.
+    - simpl in E. destruct F as [|[s kids] r]; [discriminate|].
+      destruct (heads Fs) as [hs'|] eqn:E'; [|discriminate]. inversion E; subst.
+      rewrite col_cons, (IH hs' eq_refl). destruct Hst as [_ (pre & -> & Lp)].
+      rewrite Lp, nth_error_app2, Nat.sub_diag by lia. reflexivity.
+  Qed.
+
+  (* ---- the border step: behind the heads *)
+  Lemma border_step i : forall arrs offs (Fs : list (list tree)) hs,
+    All3 (st i) arrs offs Fs -> heads Fs = Some hs ->
+    All3 (fun a o o' => find_end a (o + i) = Some o') arrs offs (adv (map (fun o => o + i) offs) hs) /\
+    All3 (st 0) arrs (adv (map (fun o => o + i) offs) hs) (map (@tl _) Fs).
+  Proof.
+    intros arrs offs Fs hs H. revert hs. induction H as [|a o F arrs offs Fs Hst H IH]; intros hs E.
+    - simpl in E. inversion E; subst. split; constructor.
+    - simpl in E. destruct F as [|t r]; [discriminate|].
+      destruct (heads Fs) as [hs'|] eqn:E'; [|discriminate]. inversion E; subst.
+      destruct (IH hs' eq_refl) as [I1 I2]. destruct Hst as [W (pre & -> & Lp)].
+      apply wff_cons in W. destruct W as [Wt Wr].
+      unfold adv. cbn [map combine fst snd]. fold (adv (map (fun o0 => o0 + i) offs) hs').
+      rewrite flats_cons, (nargs_app arity). split; constructor; auto.
+      + rewrite Lp. apply find_end_raw; auto.
+      + split; [exact Wr|]. exists (pre ++ nargs (flatten t)). split.
+        * rewrite <- app_assoc. reflexivity.
+        * rewrite app_length, (nargs_length arity), flatten_length. simpl tl. lia.
+  Qed.
+
+  (* ---- the common step: into the arguments of the heads *)
+  Lemma common_step i : forall arrs offs (Fs : list (list tree)),
+    All3 (st i) arrs offs Fs -> (forall F, In F Fs -> F <> []) ->
+    All3 (st (S i)) arrs offs (map expand Fs).
+  Proof.
+    intros arrs offs Fs H. induction H as [|a o F arrs offs Fs Hst H IH]; intros NE; [constructor|].
+    simpl map. constructor; [|apply IH; intros F' HF'; apply NE; right; auto].
+    destruct F as [|[s kids] r]; [exfalso; apply (NE []); [left; reflexivity|reflexivity]|].
+    destruct Hst as [W (pre & -> & Lp)]. apply wff_cons in W. destruct W as [Wt Wr].
+    apply wft_Node in Wt. destruct Wt as [_ Wk]. simpl expand. split.
+    - rewrite wff_app, Wk, Wr. reflexivity.
+    - exists (pre ++ [arity s]). split.
+      + rewrite flats_cons, flatten_Node, flats_app, <- app_assoc. reflexivity.
+      + rewrite app_length. simpl. lia.
+  Qed.
+
+  Lemma expand_aligned m (Fs : list (list tree)) hs ar : aligned m Fs -> 1 <= m -> heads Fs = Some hs ->
+    (forall t, In t hs -> length (children t) = ar) -> aligned (ar + (m - 1)) (map expand Fs).
+  Proof.
+    revert hs. induction Fs as [|F Fs IH]; intros hs A Hm E CH; [constructor|].
+    inversion A as [|? ? LF A']; subst. simpl in E. destruct F as [|t r]; [discriminate|].
+    destruct (heads Fs) as [hs'|] eqn:E'; [|discriminate]. inversion E; subst.
+    simpl map. constructor.
+    - simpl expand. rewrite app_length, (CH t (or_introl eq_refl)). simpl length. lia.
+    - apply (IH hs'); auto. intros t' Ht'. apply CH. right; auto.
+  Qed.
+
+  Lemma heads_wf i arrs offs (Fs : list (list tree)) hs : All3 (st i) arrs offs Fs -> heads Fs = Some hs ->
+    Forall (fun t => wft t = true) hs.
+  Proof.
+    intros H. revert hs. induction H as [|a o F arrs offs Fs Hst H IH]; intros hs E.
+    - simpl in E. inversion E; constructor.
+    - simpl in E. destruct F as [|t r]; [discriminate|].
+      destruct (heads Fs) as [hs'|] eqn:E'; [|discriminate]. inversion E; subst.
+      destruct Hst as [W _]. apply wff_cons in W. constructor; [tauto|]. apply IH; reflexivity.
+  Qed.
+
+  Lemma heads_hd (Fs : list (list tree)) hs : heads Fs = Some hs -> Fs <> [] ->
+    exists t0 r0 hs' Fs', Fs = (t0 :: r0) :: Fs' /\ hs = t0 :: hs'.
+  Proof.
+    destruct Fs as [|F Fs']; [congruence|]. intros E _. simpl in E. destruct F as [|t0 r0]; [discriminate|].
+    destruct (heads Fs') as [hs'|]; [|discriminate]. inversion E; subst. eauto 6.
+  Qed.
+
+  Lemma tl_aligned m (Fs : list (list tree)) : aligned m Fs -> aligned (m - 1) (map (@tl _) Fs).
+  Proof.
+    intros A. induction A as [|F Fs L A IH]; simpl; constructor; auto.
+    destruct F; simpl in *; lia.
+  Qed.
+
+  Lemma all_nil_heads (Fs : list (list tree)) : Fs <> [] -> aligned 0 Fs -> heads Fs = None.
+  Proof.
+    destruct Fs as [|F Fs]; [congruence|]. intros _ A. inversion A as [|? ? L _]; subst.
+    destruct F; [reflexivity|discriminate].
+  Qed.
+  Lemma specF_all_nil fuel (Fs : list (list tree)) os : Fs <> [] -> aligned 0 Fs -> specF fuel Fs os = [].
+  Proof. intros NE A. destruct fuel; simpl; auto. rewrite all_nil_heads; auto. Qed.
+
+  (* ---- the scan: up to and including the first column whose arities differ *)
+  Lemma scan_forest : forall N (Fs : list (list tree)) arrs offs i n fuel m,
+    Fs <> [] -> aligned m Fs -> 1 <= m -> All3 (st i) arrs offs Fs ->
+    sizes (hd [] Fs) <= N -> sizes (hd [] Fs) <= fuel ->
+    (forall F, In F Fs -> n <= sizes F) -> (exists F, In F Fs /\ n = sizes F) ->
+    (exists cs,
+        crk_scan arrs offs i n = Some (cs, i + n - 1, false) /\
+        specF fuel Fs (map (fun o => o + i) offs) = map (fun c => (c, false)) cs /\
+        Forall2 (fun a o => find_end a (o + (i + n - 1)) = Some (length a)) arrs offs)
+    \/
+    (exists e cs (Fs' : list (list tree)) offs' m',
+        crk_scan arrs offs i n = Some (cs ++ [map (fun o => o + (i + e)) offs], i + e, true) /\
+        specF fuel Fs (map (fun o => o + i) offs)
+          = map (fun c => (c, false)) cs ++ (map (fun o => o + (i + e)) offs, true) :: specF (fuel - S e) Fs' offs' /\
+        All3 (fun a o o' => find_end a (o + (i + e)) = Some o') arrs offs offs' /\
+        All3 (st 0) arrs offs' Fs' /\ aligned m' Fs' /\
+        sizes (hd [] Fs') + S e <= sizes (hd [] Fs)).
+  Proof.
+    induction N as [|N IH]; intros Fs arrs offs i n fuel m NE A Hm H HN Hf Hle Heq.
+    - exfalso. destruct Fs as [|F Fs]; [congruence|]. inversion A as [|? ? LF _]; subst.
+      destruct F as [|t r]; [simpl in Hm; lia|]. simpl hd in HN. rewrite sizes_cons in HN. pose proof (size_pos t). lia.
+    - destruct (heads_some m Fs A Hm) as [hs E].
+      destruct (heads_hd Fs hs E NE) as (t0 & r0 & hs' & Fs0 & -> & ->).
+      assert (NEF : forall F, In F ((t0 :: r0) :: Fs0) -> F <> []).
+      { intros F HF. pose proof A as A0. unfold aligned in A0. rewrite Forall_forall in A0. specialize (A0 F HF).
+        destruct F; [simpl in A0; lia|discriminate]. }
+      simpl hd in HN, Hf. rewrite sizes_cons in HN, Hf. pose proof (size_pos t0) as P0.
+      destruct fuel as [|f]; [lia|].
+      assert (Hn : 1 <= n).
+      { destruct Heq as (F & HF & ->). pose proof (NEF F HF). destruct F as [|t r]; [congruence|].
+        rewrite sizes_cons. pose proof (size_pos t). lia. }
+      destruct n as [|n]; [lia|].
+      rewrite crk_scan_S, (col_heads i _ _ _ _ H E).
+      cbn [TreeCRk.specF]. rewrite E.
+      pose proof (heads_wf i _ _ _ _ H E) as WH.
+      destruct (all_eqb (root_arities (t0 :: hs'))) eqn:EA.
+      + (* all arities agree: continue into the arguments *)
+        pose proof (same_arity_children arity t0 hs' WH EA) as CH.
+        set (ar := arity (root t0)) in *.
+        pose proof (expand_aligned m _ _ ar A Hm E CH) as A'.
+        pose proof (common_step i _ _ _ H NEF) as H'.
+        assert (NE' : map expand ((t0 :: r0) :: Fs0) <> []) by discriminate.
+        assert (Hle' : forall F, In F (map expand ((t0 :: r0) :: Fs0)) -> n <= sizes F).
+        { intros F' HF'. apply in_map_iff in HF'. destruct HF' as (F & <- & HF).
+          pose proof (expand_sizes F (NEF F HF)). specialize (Hle F HF). lia. }
+        assert (Heq' : exists F, In F (map expand ((t0 :: r0) :: Fs0)) /\ n = sizes F).
+        { destruct Heq as (F & HF & EF). exists (expand F). split; [apply in_map; auto|].
+          pose proof (expand_sizes F (NEF F HF)). lia. }
+        assert (S0 : S (sizes (hd [] (map expand ((t0 :: r0) :: Fs0)))) = size t0 + sizes r0).
+        { change (hd [] (map expand ((t0 :: r0) :: Fs0))) with (expand (t0 :: r0)).
+          rewrite (expand_sizes (t0 :: r0)) by discriminate. apply sizes_cons. }
+        destruct (Nat.eq_dec (ar + (m - 1)) 0) as [Z|NZ].
+        * (* nothing left: every pending forest was a single leaf *)
+          left. rewrite Z in A'.
+          assert (n = 0).
+          { destruct Heq' as (F' & HF' & ->). pose proof A' as A0. unfold aligned in A0.
+            rewrite Forall_forall in A0. specialize (A0 F' HF'). destruct F'; [reflexivity|discriminate]. }
+          subst n. exists [map (fun o => o + i) offs]. split; [|split].
+          -- simpl crk_scan. replace (i + 1 - 1) with (i - 0) by lia. reflexivity.
+          -- rewrite specF_all_nil; auto.
+          -- replace (i + 1 - 1) with i by lia. clear - H A Z CH E Hm.
+             assert (CH' : forall t, In t (t0 :: hs') -> children t = []).
+             { intros t Ht. specialize (CH t Ht). destruct (children t); [reflexivity|simpl in CH; lia]. }
+             assert (Hm1 : m = 1) by lia. subst m. clear Z CH Hm.
+             revert E CH'. generalize (t0 :: hs') as hs. intros hs.
+             revert hs. induction H as [|a o F arrs offs Fs Hst H IH]; intros hs E CH'; [constructor|].
+             inversion A as [|? ? LF A']; subst. simpl in E. destruct F as [|t r]; [discriminate|].
+             destruct r; [|discriminate].
+             destruct (heads Fs) as [hs''|] eqn:E''; [|discriminate]. inversion E; subst.
+             constructor; [|apply (IH A' hs''); auto; intros t' Ht'; apply CH'; right; auto].
+             destruct Hst as [W (pre & -> & Lp)]. apply wff_cons in W. destruct W as [Wt _].
+             rewrite Lp. pose proof (find_end_raw t pre [] Wt) as FE.
+             rewrite !app_nil_r in FE. unfold flats. simpl flat_map. rewrite app_nil_r, FE.
+             rewrite app_length, (nargs_length arity), flatten_length. reflexivity.
+        * assert (Hm' : 1 <= ar + (m - 1)) by lia.
+          assert (HN' : sizes (hd [] (map expand ((t0 :: r0) :: Fs0))) <= N) by lia.
+          assert (Hf' : sizes (hd [] (map expand ((t0 :: r0) :: Fs0))) <= f) by lia.
+          destruct (IH _ arrs offs (S i) n f _ NE' A' Hm' H' HN' Hf' Hle' Heq')
+            as [(cs & SC & SP & EN) | (e & cs & Fs' & offs' & m' & SC & SP & FE & ST & AL & SZ)].
+          -- left. exists (map (fun o => o + i) offs :: cs). rewrite SC.
+             replace (S i + n - 1) with (i + S n - 1) by lia. split; [reflexivity|]. split.
+             ++ rewrite map_add_S, SP. reflexivity.
+             ++ replace (i + S n - 1) with (S i + n - 1) by lia. exact EN.
+          -- right. exists (S e), (map (fun o => o + i) offs :: cs), Fs', offs', m'. rewrite SC.
+             replace (S i + e) with (i + S e) in * by lia. split; [reflexivity|]. split; [|split; [|split; [|split]]]; auto.
+             ++ rewrite map_add_S, SP. reflexivity.
+             ++ simpl hd. rewrite sizes_cons. lia.
+      + (* the arities differ: border; jump behind the heads *)
+        right. destruct (border_step i _ _ _ _ H E) as [B1 B2].
+        exists 0, [], (map (@tl _) ((t0 :: r0) :: Fs0)), (adv (map (fun o => o + i) offs) (t0 :: hs')), (m - 1).
+        rewrite Nat.add_0_r. split; [reflexivity|]. split; [|split; [|split; [|split]]]; auto.
+        * simpl. rewrite Nat.sub_0_r. reflexivity.
+        * apply tl_aligned; auto.
+        * cbn [map hd tl]. rewrite sizes_cons. lia.
+  Qed.
+End PartB.
+
+(* ================================================================ Part C: advance, the loop, the theorem *)
+Section PartC.
+  Context {sym : Type}.
+  Variable arity : sym -> nat.
+  Notation tree := (tree sym).
+  Notation nargs := (nargs arity).
+  Notation wft := (wft arity).
+  Notation wff := (wff arity).
+  Notation specF := (specF arity).
+  Notation st := (st arity).
+
+  Lemma region_of_common (cs : list (list nat)) : region_of (map (fun c => (c, false)) cs) = (cs, []).
+  Proof.
+    unfold region_of. f_equal.
+    - rewrite map_map. simpl. apply map_id.
+    - induction cs; simpl; auto.
+  Qed.
+  Lemma region_of_app (L1 L2 : list tcol) :
+    region_of (L1 ++ L2) = (fst (region_of L1) ++ fst (region_of L2), snd (region_of L1) ++ snd (region_of L2)).
+  Proof. unfold region_of. simpl. rewrite filter_app, !map_app. reflexivity. Qed.
+  Lemma region_of_border p (L : list tcol) :
+    region_of ((p, true) :: L) = (p :: fst (region_of L), p :: snd (region_of L)).
+  Proof. reflexivity. Qed.
+
+  Lemma st_len (a : list nat) o (F : list tree) : st 0 a o F -> length a - o = sizes F /\ o <= length a.
+  Proof.
+    intros [_ (pre & -> & Lp)]. rewrite app_length, (nargs_length arity), flats_length. lia.
+  Qed.
+
+  Lemma iters_map : forall arrs offs (Fs : list (list tree)), All3 (st 0) arrs offs Fs ->
+    map (fun ao => length (fst ao) - snd ao) (combine arrs offs) = map sizes Fs.
+  Proof.
+    intros arrs offs Fs H. induction H as [|a o F arrs offs Fs Hst H IH]; simpl; auto.
+    rewrite IH. destruct (st_len a o F Hst) as [E _]. rewrite E. reflexivity.
+  Qed.
+
+  Lemma advance_continue last : forall arrs offs offs' (Fs' : list (list tree)),
+    All3 (fun a o o' => find_end a (o + last) = Some o') arrs offs offs' ->
+    All3 (st 0) arrs offs' Fs' -> (forall F, In F Fs' -> F <> []) ->
+    crk_advance (combine arrs offs) last = Some (offs', false).
+  Proof.
+    intros arrs offs offs' Fs' H. revert Fs'.
+    induction H as [|a o o' arrs offs offs' FE H IH]; intros Fs' H2 NE; [reflexivity|].
+    inversion H2 as [|? ? F ? ? Fs0 Hst H2']; subst. simpl. rewrite FE.
+    destruct (st_len a o' F Hst) as [E Lo].
+    assert (1 <= sizes F).
+    { pose proof (NE F (or_introl eq_refl)). destruct F as [|t r]; [congruence|].
+      rewrite sizes_cons. pose proof (size_pos t). lia. }
+    replace (length a <=? o') with false by (symmetry; apply Nat.leb_gt; lia).
+    rewrite (IH Fs0 H2') by (intros F' HF'; apply NE; right; auto). reflexivity.
+  Qed.
+
+  Lemma advance_end last a0 o0 arrs offs e : find_end a0 (o0 + last) = Some e -> length a0 <= e ->
+    exists x, crk_advance (combine (a0 :: arrs) (o0 :: offs)) last = Some (x, true).
+  Proof.
+    intros FE L. simpl. rewrite FE. replace (length a0 <=? e) with true by (symmetry; apply Nat.leb_le; lia).
+    eauto.
+  Qed.
+
+  Lemma crk_loop_forest : forall fuelL (Fs : list (list tree)) arrs offs m fuel,
+    Fs <> [] -> aligned m Fs -> 1 <= m -> All3 (st 0) arrs offs Fs ->
+    sizes (hd [] Fs) < fuelL -> sizes (hd [] Fs) <= fuel ->
+    crk_loop fuelL arrs offs = Some (region_of (specF fuel Fs offs)).
+  Proof.
+    induction fuelL as [|fl IH]; intros Fs arrs offs m fuel NE A Hm H HL Hf; [lia|].
+    cbn [crk_loop]. rewrite (iters_map _ _ _ H).
+    assert (B0 : length (hd [] arrs) - hd 0 offs = sizes (hd [] Fs)).
+    { inversion H as [|a o F ? ? ? Hst _]; subst; [congruence|]. simpl. apply (st_len a o F Hst). }
+    rewrite B0.
+    set (iters := fold_right Nat.min (sizes (hd [] Fs)) (map sizes Fs)).
+    destruct (fold_min_spec (map sizes Fs) (sizes (hd [] Fs))) as [[I1 I2] I3]. fold iters in I1, I2, I3.
+    assert (Hle : forall F, In F Fs -> iters <= sizes F).
+    { intros F HF. apply I2. apply in_map. exact HF. }
+    assert (Heq : exists F, In F Fs /\ iters = sizes F).
+    { destruct I3 as [I3|I3].
+      - destruct Fs as [|F0 Fs0]; [congruence|]. exists F0. split; [left; reflexivity|exact I3].
+      - apply in_map_iff in I3. destruct I3 as (F & EF & HF). exists F. auto. }
+    destruct (scan_forest arity (sizes (hd [] Fs)) Fs arrs offs 0 iters fuel m NE A Hm H (le_n _) Hf Hle Heq)
+      as [(cs & SC & SP & EN) | (e & cs & Fs' & offs' & m' & SC & SP & FE & ST & AL & SZ)].
+    - (* the scan reached the end of every tree *)
+      rewrite SC. rewrite map_add_0 in SP. rewrite SP, region_of_common.
+      inversion EN as [|a0 o0 arrs0 offs0 E0 _]; subst.
+      + inversion H; subst; congruence.
+      + destruct (advance_end (0 + iters - 1) a0 o0 arrs0 offs0 (length a0) E0 (le_n _)) as [x AD].
+        rewrite AD. reflexivity.
+    - (* border at column e *)
+      rewrite SC. rewrite map_add_0 in SP. rewrite SP, region_of_app, region_of_common, region_of_border.
+      cbn [fst snd app]. simpl Nat.add in *.
+      destruct (Nat.eq_dec m' 0) as [Z|NZ].
+      + (* every tree is exhausted *)
+        subst m'. assert (NE' : Fs' <> []).
+        { inversion ST; subst; [inversion H; subst; congruence|discriminate]. }
+        rewrite (specF_all_nil arity _ Fs' offs' NE' AL). cbn [region_of map filter fst snd].
+        inversion FE as [|a0 o0 o0' arrs0 offs0 offs0' E0 FE']; subst; [inversion H; subst; congruence|].
+        inversion ST as [|? ? F0' ? ? Fs0' Hst0 ST']; subst.
+        inversion AL as [|? ? L0 _]; subst. destruct F0' as [|? ?]; [|discriminate].
+        destruct (st_len a0 o0' [] Hst0) as [E1 _]. unfold sizes in E1; simpl in E1.
+        destruct (advance_end e a0 o0 arrs0 offs0 o0' E0) as [x AD].
+        { destruct Hst0 as [_ (pre & -> & Lp)]. simpl. rewrite app_nil_r. lia. }
+        rewrite AD. reflexivity.
+      + (* continue behind the k sub-terms *)
+        assert (NEF : forall F, In F Fs' -> F <> []).
+        { intros F HF. unfold aligned in AL. rewrite Forall_forall in AL. specialize (AL F HF).
+          destruct F; [simpl in AL; lia|discriminate]. }
+        rewrite (advance_continue e arrs offs offs' Fs' FE ST NEF).
+        assert (NE' : Fs' <> []).
+        { inversion ST; subst; [inversion H; subst; congruence|discriminate]. }
+        rewrite (IH Fs' arrs offs' m' (fuel - S e)); auto; try lia.
+        destruct (region_of (specF (fuel - S e) Fs' offs')) as [cs' bs']. cbn [fst snd].
+        rewrite <- app_assoc. reflexivity.
+  Qed.
+
+  Lemma transp_single k (Ts : list tree) : length Ts = k -> transp k [Ts] = map (fun t => [t]) Ts.
+  Proof.
+    intros <-. unfold transp. simpl. unfold zipcons.
+    induction Ts as [|t Ts IH]; simpl; auto. f_equal. exact IH.
+  Qed.
+
+  (* THE theorem: for every non-empty tuple of well-formed trees the k-tree walk returns every
+     column and every border column of the recursive common region *)
+  Theorem common_region_k_spec : forall (T0 : tree) (Ts' : list tree) d,
+    Forall (fun t => wft t = true) (T0 :: Ts') -> depth T0 < d ->
+    common_region_k (map (fun t => nargs (flatten t)) (T0 :: Ts'))
+    = Some (region_of (crk_rec arity d (T0 :: Ts') (map (fun _ => 0) (T0 :: Ts')))).
+  Proof.
+    intros T0 Ts' d W Hd. set (Ts := T0 :: Ts') in *. set (k := length Ts).
+    unfold common_region_k.
+    assert (Z : map (fun _ : list nat => 0) (map (fun t => nargs (flatten t)) Ts) = map (fun _ => 0) Ts)
+      by (rewrite map_map; reflexivity).
+    rewrite Z.
+    assert (ST : All3 (st 0) (map (fun t => nargs (flatten t)) Ts) (map (fun _ => 0) Ts) (map (fun t => [t]) Ts)).
+    { clear - W. induction W as [|t Ts Wt W IH]; simpl; constructor; auto.
+      split; [unfold Tree.wff; simpl; rewrite Wt; reflexivity|]. exists []. split; [|reflexivity].
+      unfold flats; simpl. rewrite app_nil_r. reflexivity. }
+    assert (AL : aligned 1 (map (fun t : tree => [t]) Ts)).
+    { unfold aligned. apply Forall_forall. intros F HF. apply in_map_iff in HF. destruct HF as (t & <- & _). reflexivity. }
+    rewrite (crk_loop_forest _ (map (fun t => [t]) Ts) _ _ 1 (size T0)); auto.
+    - f_equal. f_equal.
+      rewrite <- (transp_single k Ts eq_refl).
+      rewrite (specF_tagsW arity k) with (D := d).
+      + simpl. apply app_nil_r.
+      + unfold k, Ts. simpl. lia.
+      + constructor; [|constructor]. split; auto.
+      + apply map_length.
+      + unfold size0, Ts. simpl. lia.
+      + constructor; [|constructor]. unfold Ts. split; auto. inversion W; auto.
+    - discriminate.
+    - unfold Ts. simpl. unfold sizes; simpl. rewrite (nargs_length arity), flatten_length. lia.
+    - unfold Ts. simpl. unfold sizes; simpl. lia.
+  Qed.
+End PartC.
